@@ -8,6 +8,12 @@ Exact ties: the step each of split / join / lift / wrap records equals the step 
 (lean/PM/StructEdit.lean; failure class of build+apply when the real edit raises); every helper answer (can_split,
 can_join, join_point, lift_target, find_wrapping, insert_point, drop_point, can_change_type) equals the model's
 (lean/PM/Structure.lean, Structure2.lean), `None` and "raises" included, also at off-guard positions.
+Guard ties (relational, all schemas incl. random and aimed ones): the guards of the theorems "an approved edit applies"
+(Props/C12.lean `canSplit_split_applies`, `canJoin_join_applies`, `findWrapping_wrap_succeeds`, `liftTarget_lift_applies`;
+model functions `splitGuard`, `joinGuard`, `wrapGuard` ∧ `wrapBuilds`, `liftGuard` / `liftFlatGuard` of lean/PM/Structure.lean,
+Structure2.lean, StructEdit.lean) are evaluated by the
+driver at every approved edit: approved ∧ guard ⇒ the real edit succeeded (a mismatch otherwise).  Aimed schemas
+(`AIMED`, outside the family: approval without the guard is known not to be enough there) make the guards bite.
 Search: approve ⇒ perform ⇒ `check()` ∧ leaf/text sequence equal; helpers never die with an internal
 error and return in-range results; for random schemas only "a performed edit that returns is valid
 and keeps the leaf sequence".
@@ -28,6 +34,59 @@ from prosemirror.transform.structure import (
 from .. import core, gen, ops, schemas
 from ..codec import doc_tokens
 from ..core import outcome
+
+
+_AIMED = None
+
+
+def aimed():
+    """schemas outside the family in which a helper approves an edit that then fails unless the theorem's guard holds"""
+    global _AIMED
+    if _AIMED is None:
+        from prosemirror.model import Schema
+        _AIMED = [
+            # a cut inside the text of `p("ab", image)` leaves `p("a")`: `can_split` does not look at the text's first part
+            schemas.SchemaInfo(Schema({"nodes": {
+                "doc": {"content": "block+"}, "p": {"content": "(text image)*", "group": "block"},
+                "quote": {"content": "block+", "group": "block"},
+                "image": {"inline": True}, "text": {"inline": True}}, "marks": {"em": {}}}), "alternating-inline"),
+            # `joinable` asks can_append (B's content continues A's), the join asks compatible_content (the start states share an edge)
+            schemas.SchemaInfo(Schema({"nodes": {
+                "doc": {"content": "A (A | B)*"}, "A": {"content": "x y*"}, "B": {"content": "y+"},
+                "x": {}, "y": {}, "text": {}}}), "join-incompatible"),
+            # not TextStable: can_append accepts `text text text image`, the join merges two of the texts
+            schemas.SchemaInfo(Schema({"nodes": {
+                "doc": {"content": "(A | B)+"}, "A": {"content": "(text|image) (text|image) (text image)?"},
+                "B": {"content": "(text|image) image"},
+                "image": {"inline": True}, "text": {"inline": True}}, "marks": {"em": {}}}), "join-unstable"),
+            # block nodes may carry marks (`doc` allows all, `section` only `em`, `quote` none): `find_wrapping` compares types only,
+            # the wrap asks the innermost wrapper `can_replace`, marks included
+            schemas.SchemaInfo(Schema({"nodes": {
+                "doc": {"content": "block+", "marks": "_"}, "p": {"content": "text*", "group": "block"},
+                "quote": {"content": "block+", "group": "block"},
+                "section": {"content": "block+", "group": "block", "marks": "em"},
+                "text": {"inline": True}}, "marks": {"em": {}, "strong": {}}}), "marked-blocks"),
+            # `compute_wrapping` stops when the last wrapper found accepts the target as *first* child (`pair` for `cell`),
+            # `Transform.wrap` wants every wrapper to accept the next one as its only child (`box` for `item` does)
+            schemas.SchemaInfo(Schema({"nodes": {
+                "doc": {"content": "block+"}, "p": {"content": "text*", "group": "block"},
+                "box": {"content": "item+", "group": "block"}, "item": {"content": "(p | sec)+"}, "sec": {"content": "p p+"},
+                "pair": {"content": "cell cell", "group": "block"}, "cell": {"content": "p+"},
+                "text": {"inline": True}}, "marks": {"em": {}}}), "wrap-first-child"),
+            # `lift_target` asks whether the target accepts the content *instead of* the range's ancestor; when the lift splits,
+            # the copies left behind stay: doc(blockquote(p, p)) lifting one paragraph is approved and would give doc(blockquote(p), p)
+            schemas.SchemaInfo(Schema({"nodes": {
+                "doc": {"content": "blockquote | paragraph+"}, "blockquote": {"content": "paragraph+"},
+                "paragraph": {"content": "text*"}, "text": {}}, "marks": {"em": {}}}), "lift-copy"),
+            # not TextStable, nested inline nodes: lifting `span2("b"), "c"` out of p("x", span1(span2("b"), "c"), "y") splits nothing,
+            # `can_replace` accepts `text span2 text text`, the replace merges "c" and "y"
+            schemas.SchemaInfo(Schema({"nodes": {
+                "doc": {"content": "p+"},
+                "p": {"content": "(text|image) span1 (text|image) | (text|image) span2 (text|image) (text|image)"},
+                "span1": {"inline": True, "content": "(span2|image) text*"}, "span2": {"inline": True, "content": "text*"},
+                "image": {"inline": True}, "text": {"inline": True}}}), "lift-unstable"),
+        ]
+    return _AIMED
 
 
 def content(toks):
@@ -83,6 +142,17 @@ def run(ctx):
                 if out != exp:
                     ctx.mismatch(op, replay, exp, out)
                 continue
+            if op.startswith("guard "):
+                # relational: approved ∧ guard ⇒ the real edit succeeded
+                g = out.get("ok")
+                ctx.count(f"{op}: guard={g} edit {'succeeded' if exp else 'failed'}")
+                if op == "guard lift" and g is True:
+                    ctx.count("guard lift: holds, " + ("nothing is split" if out.get("flat") else "ancestors are split"))
+                if g is True and not exp:
+                    ctx.mismatch(op, replay, "the approved edit succeeds whenever the theorem's guard holds", "guard holds, the real edit failed")
+                elif g not in (True, False):
+                    ctx.mismatch(op, replay, "a boolean guard", out)
+                continue
             if op.startswith("builder-fails"):
                 if out != exp:
                     ctx.mismatch(op, replay, exp, out if "err" in out else "model: the built step applies")
@@ -99,12 +169,21 @@ def run(ctx):
         metas.append(("helper " + name, replay, {"ok": enc(val)} if st == "ok" else {"err": "raises"}))
         ctx.count(f"helper tie {name}: " + ("raises" if st != "ok" else "None" if val is None else "answer"))
 
+    def guard(info, d, kind, fields, replay, succeeded):
+        """the guard of the "approved edit applies" theorem of this kind, evaluated by the model at an approved edit"""
+        reqs.append(dict(fields, op="structGuard", k=kind, s=info.lean_id, doc=info.node(d)))
+        metas.append(("guard " + kind, replay, bool(succeeded)))
+
     fam = schemas.family()
+    aim = aimed()
     for si in range(ctx.budget(14, 60)):
         if len(reqs) >= 15000:
             flush()     # keep memory bounded in long runs
         bundled = si < len(fam) or rng.random() < 0.7
         info = fam[si % len(fam)] if bundled else schemas.random_schema(rng)
+        if si >= len(fam) and (si - len(fam)) % 4 == 0:
+            # an aimed schema: approvals are not claims here (`bundled = False`), the guard ties are
+            bundled, info = False, aim[((si - len(fam)) // 4) % len(aim)]
         schema = info.schema
         ctx.driver.add_schema(info)
         docs = [gen.gen_doc(rng, schema, budget=rng.choice([8, 16, 30])) for _ in range(ctx.budget(4, 8))]
@@ -144,8 +223,10 @@ def run(ctx):
                         continue
                     if ok or (not bundled and rng.random() < 0.15) or rng.random() < 0.03:
                         if bundled or ok or True:
-                            perform(ctx, info, d, "split", lambda tr: tr.split(pos, depth), replay, reqs, metas, bool(ok) and bundled,
-                                    build={"k": "split", "pos": pos, "depth": depth})
+                            done = perform(ctx, info, d, "split", lambda tr: tr.split(pos, depth), replay, reqs, metas, bool(ok) and bundled,
+                                           build={"k": "split", "pos": pos, "depth": depth})
+                            if ok:
+                                guard(info, d, "split", {"pos": pos}, replay, done is not None)
                 # ---- can_join / join / join_point
                 st, ok = outcome(lambda: can_join(d, pos))
                 replay = dict(base, helper="can_join")
@@ -153,8 +234,10 @@ def run(ctx):
                 if st != "ok":
                     ctx.violation("can_join-raises", f"can_join raised {ok}", replay)
                 elif ok or rng.random() < 0.03:
-                    perform(ctx, info, d, "join", lambda tr: tr.join(pos), replay, reqs, metas, bool(ok) and bundled,
-                            build={"k": "join", "pos": pos, "depth": 1})
+                    done = perform(ctx, info, d, "join", lambda tr: tr.join(pos), replay, reqs, metas, bool(ok) and bundled,
+                                   build={"k": "join", "pos": pos, "depth": 1})
+                    if ok:
+                        guard(info, d, "join", {"pos": pos}, replay, done is not None)
                 for direction in (-1, 1):
                     st, jp = outcome(lambda: join_point(d, pos, direction))
                     replay = dict(base, helper="join_point", dir=direction)
@@ -183,8 +266,12 @@ def run(ctx):
                         if not (0 <= tgt < br.depth):
                             ctx.violation("lift_target-range", "lift_target returned a depth outside [0, range depth)", dict(replay, target=tgt))
                         else:
-                            perform(ctx, info, d, "lift", lambda tr: tr.lift(br, tgt), dict(replay, target=tgt), reqs, metas, bundled,
-                                    build={"k": "lift", "from": br.from_.pos, "to": br.to.pos, "depth": br.depth, "target": tgt})
+                            done = perform(ctx, info, d, "lift", lambda tr: tr.lift(br, tgt), dict(replay, target=tgt), reqs, metas, bundled,
+                                           build={"k": "lift", "from": br.from_.pos, "to": br.to.pos, "depth": br.depth, "target": tgt})
+                            # `liftTarget_lift_applies(_flat)`: approved ∧ (nothing is split ∨ the pieces the split leaves are valid)
+                            # ∧ TextStable ⇒ the lift succeeded
+                            guard(info, d, "lift", {"from": br.from_.pos, "to": br.to.pos, "depth": br.depth, "target": tgt},
+                                  dict(replay, target=tgt), done is not None)
                     if block_types:
                         wt = rng.choice(block_types)
                         attrs = gen.gen_attrs(rng, wt)
@@ -195,10 +282,11 @@ def run(ctx):
                         if st != "ok":
                             ctx.violation("find_wrapping-raises", f"find_wrapping raised {wr}", replay)
                         elif wr is not None:
-                            perform(ctx, info, d, "wrap", lambda tr: tr.wrap(br, wr), dict(replay, chain=[w.type.name for w in wr]),
-                                    reqs, metas, bundled,
-                                    build={"k": "wrap", "from": br.from_.pos, "to": br.to.pos, "depth": br.depth,
-                                           "wrappers": [[info.nid[w.type.name], info.attrs(w.type, w.attrs)] for w in wr]})
+                            wfields = {"from": br.from_.pos, "to": br.to.pos, "depth": br.depth,
+                                       "wrappers": [[info.nid[w.type.name], info.attrs(w.type, w.attrs)] for w in wr]}
+                            done = perform(ctx, info, d, "wrap", lambda tr: tr.wrap(br, wr), dict(replay, chain=[w.type.name for w in wr]),
+                                           reqs, metas, bundled, build=dict(wfields, k="wrap"))
+                            guard(info, d, "wrap", wfields, replay, done is not None)
                 # ---- insert_point
                 nt = rng.choice(list(schema.nodes.values()))
                 st, ip = outcome(lambda: insert_point(d, pos, nt))
